@@ -32,8 +32,7 @@ def padLoop (idSize : Nat) (cap : Nat) : Nat → DB → Nat → Tape → Except 
 def encAll (ske : AESxCBC) (lv : Leaves) (key : Bytes) : List Bytes → Tape → Except Err (List Bytes × Tape)
   | [], t => .ok ([], t)
   | x :: xs, t => do
-    let (iv, t1) ← takeBytes 16 t
-    let c ← ske.encrypt lv.E key iv x
+    let (c, t1) ← skeEncrypt ske lv key x t
     let (cs, t2) ← encAll ske lv key xs t1
     pure (c :: cs, t2)
 
@@ -119,8 +118,7 @@ def encDb (K : Bytes) : DB → List (List (Bytes × Bytes)) → Tape → Except 
 
 /-- `len(ske.Encrypt(zeros(k'), zeros(idsize)))` — a real call, it draws an IV -/
 def cipherLen (ske : AESxCBC) (lv : Leaves) (keyLen idSize : Int) (t : Tape) : Except Err (Nat × Tape) := do
-  let (iv, t1) ← takeBytes 16 t
-  let c ← ske.encrypt lv.E (zeros keyLen.toNat) iv (zeros idSize.toNat)
+  let (c, t1) ← skeEncrypt ske lv (zeros keyLen.toNat) (zeros idSize.toNat) t
   pure (c.length, t1)
 
 /-- pad level `i` to `2^(t-i)` entries -/
@@ -226,8 +224,7 @@ def encDb (K : Bytes) (niSize : Nat) :
     let nb ← match intToBytesNat ni niSize with
       | .ok b => pure b
       | .error _ => throw .overflowError
-    let (iv, t3) ← takeBytes 16 t2
-    let niP ← cfg.ske.encrypt lv.E tk.KiP iv nb
+    let (niP, t3) ← skeEncrypt cfg.ske lv tk.KiP nb t2
     let Ts' ← pushAt Ts p (tk.li, cs.flatten)
     encDb K niSize rest Ts' (S ++ [(tk.liP, niP)]) t3
 
